@@ -312,6 +312,10 @@ def unpackify(fmt=u'1 1 1 1 1 1 1 1',
     if not (0 <= tbfl <= (size * 8)):
         raise ValueError("Total bit field lengths in fmt not in [0, {0}]".format(size * 8))
 
+    if tbfl > (len(b) * 8):
+        raise ValueError("Total bit field lengths in fmt greater than the {0} bits"
+                         " of b".format(len(b) * 8))
+
     b = b[:size]
     fields = []  # list of bit fields
     bfp = 8 * size  # bit field position
